@@ -376,6 +376,9 @@ func (tr *Trans) havocComp(comp string, pos token.Pos) {
 	}
 	tr.eng.recordWrite(tr.fn, comp)
 	tr.cur.havoc(v)
+	if _, ok := tr.eng.ghost["BytesVal"]; ok && comp == "E_uint8" {
+		tr.havocComp("BytesVal", pos)
+	}
 }
 
 func (tr *Trans) havocAll(pos token.Pos) {
